@@ -6,8 +6,9 @@ BASE = "cd /repo && /venv/bin/python -m pytest -ra -q -p no:cacheprovider --time
 TRUST = ("TLC 1.8 (32-bit exact integer arithmetic); gamma/alpha of vf/core.py (one correctly rounded division / sqrt / "
          "atan2 per concretised component); NumPy matmul/det/norm in validity checks; CPython.")
 FORMS = (" While the check runs, every public callable it drives is also called with the same values in the other argument forms "
-         "enumerated by TLC from ArgumentForms.tla (lists, tuples, strided / Fortran-ordered arrays, option strings in another case) and "
-         "must give the same answer (vf/forms.py).")
+         "enumerated by TLC from ArgumentForms.tla (lists, tuples, strided / Fortran-ordered arrays, option strings in another case, real scalars "
+         "as NumPy scalars / 0-d arrays / ints, documented synonyms) and must give the same answer; a call given options is bracketed by the same "
+         "call without them (OptionScope.tla), which must answer the same before and after (vf/forms.py).")
 CHECKS = {}
 NA = {}
 
